@@ -158,6 +158,7 @@ func runC04(c *Ctx) {
 	if eu := c.P.LangFunc("(*Evaluator).evalUnaryExpr"); eu != nil {
 		c.shared("R11", "C09/R5", "++ / -- on a copy (a for-in variable) does not reach the document: numbers are never updated in place, the new value is assigned through evalAssignment", nil, func(s *Ctx) { incdecTable(s, "R5", eu) })
 	}
+	c.shared("R14", "C09/R1", "a program that only reads leaves the document as read: member and index reads store nothing through their operand cells (an explicit null in the document is not given a shape by reading through it)", nil, c09R1)
 	c.shared("R12", "C15/R2", "a method called on a copy of a document array does not write into the backing array the document still covers: pop and popfirst only re-slice, push appends", keyHas("array.pop", "array.push"), func(s *Ctx) { c15R2(s, nativeMethods(s.P)) })
 	if es := c.P.LangFunc("(*Evaluator).evalStatement"); es != nil {
 		c.shared("R13", "C07/R7", "a for-in loop variable is a copy in a cell of its own: assigning to it, or reusing its name afterwards, does not write into the document", keyHas("for-in ", "binding-before-body"), func(s *Ctx) { c07ForIn(s, es) })
